@@ -77,7 +77,9 @@ def render(fmt, recs, rng):
         lines.append('lon,lat,mag,time_string,depth,catalog_id,event_id')
         for i, r in enumerate(recs):
             t = '%04d-%02d-%02dT%02d:%02d:%02d' % (r['y'], r['mo'], r['d'], r['h'], r['mi'], r['s'])
-            if r['ms'] or i % 2:
+            if r['ms'] % 10 == 0 and r['ms'] and i % 3 == 0:
+                t += '.' + ('%03d' % r['ms']).rstrip('0')            # .5 = 500 ms, .25 = 250 ms
+            elif r['ms'] or i % 2:
                 t += '.%06d' % (r['ms'] * 1000)
             lines.append('%r,%r,%r,%s,%r,%s,%s' % (r['lon'], r['lat'], r['mag'], t, r['dep'], '0' if i % 3 else '', 'ev%d' % i))
             mags.append(r['mag'])
